@@ -159,6 +159,42 @@ static void run_inifile(long shard, long nshards) {
     vc_sample("main.conf = [x=1 | @INCLUDE inc.conf | y=<${x}>], inc.conf = [[s] | x=a b]");
 }
 
+/* several include directives in one file: include names that are prefixes of each other, the same file twice, and
+ * the directive text inside a value (not at the start of a line, so plain text). Every item is one line. */
+static const char *INCNAME[] = {"a.conf", "a.conf2", "b", "a"};
+static const char *ITEM2[] = {"@INCLUDE a.conf", "@INCLUDE a.conf2", "@INCLUDE b", "@INCLUDE a", "n=see @INCLUDE a.conf", "z=1", "m=@INCLUDE b"};
+#define NITEM2 7
+static void inimulti_case(const int *it, int n) {
+    char key[64], *k = key; k += sprintf(k, "inimulti:"); for (int i = 0; i < n; i++) k += sprintf(k, "%s%d", i ? "," : "", it[i]);
+    if (!vc_case("qconfig_parse_file", key)) return;
+    n_eval++; n_nontrivial++;
+    nexp = 0; cursec[0] = 0; illformed = 0;
+    char maindoc[512] = "", path[700];
+    for (int i = 0; i < n; i++) {
+        strcat(maindoc, ITEM2[it[i]]); strcat(maindoc, "\n");
+        if (it[i] < 4) { char kk[16], vv[16]; sprintf(kk, "f%d", it[i]); sprintf(vv, "v%d", it[i]); put(kk, vv); sprintf(kk, "g%d", it[i]); put(kk, "w"); }
+        else { char kk[8] = {ITEM2[it[i]][0], 0}; put(kk, ITEM2[it[i]] + 2); }
+    }
+    for (int f = 0; f < 4; f++) { snprintf(path, sizeof path, "%s/%s", tmpdir, INCNAME[f]); FILE *fp = fopen(path, "w"); fprintf(fp, "f%d=v%d\ng%d=w\n", f, f, f); fclose(fp); }
+    snprintf(path, sizeof path, "%s/main.conf", tmpdir); FILE *fp = fopen(path, "w"); fputs(maindoc, fp); fclose(fp);
+    qlisttbl_t *t = qconfig_parse_file(NULL, path, '=');
+    ini_compare(t, key);
+    if (t) t->free(t);
+    if (vc_asan_check()) vc_viol("asan:qconfig_parse_file", "%s", key);
+    vc_case_end();
+}
+static void run_inimulti(int maxn) {
+    snprintf(tmpdir, sizeof tmpdir, "%s/c20m_%d", getenv("TMPDIR") ? getenv("TMPDIR") : "/tmp", (int)getpid());
+    mkdir(tmpdir, 0700);
+    int it[8];
+    for (int n = 1; n <= maxn; n++) {
+        long tot = 1; for (int i = 0; i < n; i++) tot *= NITEM2;
+        for (long c = 0; c < tot; c++) { long x = c; for (int i = 0; i < n; i++) { it[i] = x % NITEM2; x /= NITEM2; } inimulti_case(it, n); }
+    }
+    char p[800]; for (int f = 0; f < 4; f++) { snprintf(p, sizeof p, "%s/%s", tmpdir, INCNAME[f]); unlink(p); } snprintf(p, sizeof p, "%s/main.conf", tmpdir); unlink(p); rmdir(tmpdir);
+    vc_sample("main.conf = [@INCLUDE a | n=see @INCLUDE a.conf | @INCLUDE a.conf2] with files a, a.conf, a.conf2, b: every sequence of <= %d such lines", maxn);
+}
+
 /* INI: section / key / value lengths across the 1024-byte threshold of the name-formatting buffer */
 static void run_inilong(void) {
     int lens[] = {1, 500, 1019, 1020, 1021, 1022, 1023, 1024, 1025, 1026, 2047, 2048, 2049, 3000};
@@ -567,6 +603,7 @@ static int replay(const char *key) {
         printf("NOTE\tdocument:\n%s\n", doc);
     } else if (!strncmp(key, "inilong:", 8)) run_inilong();
     else if (!strncmp(key, "inifile:", 8)) run_inifile(0, 1);
+    else if (!strncmp(key, "inimulti:", 9)) run_inimulti(4);
     else if (!strncmp(key, "actype:single", 13) || !strncmp(key, "actype:count", 12)) run_actype(0);
     else if (!strncmp(key, "actype:multi", 12)) run_actype(1);
     else if (!strncmp(key, "actype:all", 10)) run_actype(2);
@@ -583,6 +620,7 @@ static int worker(int argc, char **argv) {
     if (!strcmp(m, "ini")) run_ini(atoi(argv[2]), atol(argv[3]), atol(argv[4]));
     else if (!strcmp(m, "inifile")) run_inifile(atol(argv[2]), atol(argv[3]));
     else if (!strcmp(m, "inilong")) run_inilong();
+    else if (!strcmp(m, "inimulti")) run_inimulti(atoi(argv[2]));
     else if (!strcmp(m, "actype")) run_actype(atoi(argv[2]));
     else if (!strcmp(m, "acquote")) run_acquote(atoi(argv[2]), atol(argv[3]), atol(argv[4]));
     else if (!strcmp(m, "acobject")) run_acobject();
